@@ -56,9 +56,10 @@ def expected_files(mt, base):
     for t in mt.values():
         d = '/'.join(t.slug.split(':'))
         ext = model.EXT[t.kind]
-        # release 1.4.0 names run info and log after the STEM of the data path: for extension-less results (directories,
-        # in-memory tasks) a dotted key (name mode: config 'exp.v2') loses its last dotted part there
-        stem = t.key if ext else (t.key.rsplit('.', 1)[0] if '.' in t.key else t.key)
+        # <key>.run_info.yaml and <key>.log, also for extension-less results (directories) under a dotted key (name mode:
+        # config 'exp.v2'): the pinned commit took the stem of the path there, so that 'exp.v2' and 'exp' shared
+        # their records (C18 found it; repaired in /repo, see known-findings.txt)
+        stem = t.key
         out.add(f'{d}/{stem}.run_info.yaml')
         out.add(f'{d}/{stem}.log')
         if t.kind == 'memory':
